@@ -453,3 +453,13 @@ func (r JRef) EOF() (evs []Ev, accept bool) {
 	}
 	return nil, false
 }
+
+// InString reports whether the reference is inside a string token (between the quotes, after a
+// backslash, or inside a \u escape): what follows there is plain JSON string syntax in every notation.
+func (r JRef) InString() bool {
+	switch r.Lit {
+	case lStr, lStrEsc, lStrU0, lStrU1, lStrU2, lStrU3:
+		return true
+	}
+	return false
+}
